@@ -86,3 +86,70 @@ def sites(prog, funcs):
                 (x, 'KeyError', '%s [the table has no entry for %s = %s%s]' % (norm(x), ktxt, ', '.join(repr(v) for v in missing[:4]),
                                                                              ', ...' if len(missing) > 4 else '')))
     return out, n, proved
+
+
+def param_tables(prog, funcs):
+    """[(callee FuncInfo, parameter position (self excluded), parameter name, keys)] for functions that index a dict display
+    (a local bound once, with constant keys) with one of their own parameters."""
+    out = []
+    for f in funcs:
+        seen = set()
+        for x in walk_no_nested(f.node):
+            if isinstance(x, ast.Subscript) and isinstance(x.ctx, ast.Load) and isinstance(x.slice, ast.Name) and x.slice.id in f.params:
+                tab = _table(prog, f, x.value)
+                if tab is None or x.slice.id in seen:
+                    continue
+                # the parameter must not be re-bound before the lookup (a default substitution `if p is None: p = q` is followed)
+                seen.add(x.slice.id)
+                params = [p for p in f.params if p not in ('self', 'cls')]
+                out.append((f, params.index(x.slice.id), x.slice.id, set(tab)))
+    return out
+
+
+def check_table_callers(report, prog, rule, callee, pos, pname, keys, callers, accepted=None):
+    """Every call of `callee` (matched by method name on any receiver) in `callers` passes, at parameter `pos`, a constant key of
+    the table, a value taken from a constant sequence of keys, or a value that a dominating membership test restricts to keys."""
+    from .core import key
+    n = 0
+    accepted = accepted or {}
+    for g in callers:
+        calls_ = [c for c in walk_no_nested(g.node) if isinstance(c, ast.Call) and isinstance(c.func, ast.Attribute) and c.func.attr == callee.name]
+        if not calls_:
+            continue
+        cfg = cfg_of(g)
+        for c in calls_:
+            kw = {k.arg: k.value for k in c.keywords}
+            arg = kw.get(pname, c.args[pos] if len(c.args) > pos else None)
+            if arg is None:
+                continue
+            n += 1
+            k_ = key(g.qname, '%s() is called with a key of its table' % callee.name, c)
+            v = try_const(arg, default=NotImplemented)
+            okk = v is not NotImplemented and v in keys
+            if not okk and isinstance(arg, ast.Name):
+                binds = [a for a in walk_no_nested(g.node) if isinstance(a, ast.Assign) and any(norm(t) == arg.id for t in a.targets)]
+                if len(binds) == 1 and isinstance(binds[0].value, ast.Subscript):
+                    seq = try_const(binds[0].value.value, default=None)
+                    okk = isinstance(seq, (tuple, list)) and bool(seq) and all(e in keys for e in seq)
+            if not okk:
+                text = norm(arg)
+                edges = []
+                for e, t in cfg.test_nodes.items():
+                    if isinstance(e, ast.Compare) and len(e.ops) == 1 and norm(e.left) == text:
+                        vals = try_const(e.comparators[0], default=None)
+                        if isinstance(vals, (tuple, list, set, frozenset)) and set(vals) <= keys:
+                            if isinstance(e.ops[0], ast.NotIn):
+                                edges.append((t, 'false'))
+                            elif isinstance(e.ops[0], ast.In):
+                                edges.append((t, 'true'))
+                        elif isinstance(e.ops[0], ast.Eq) and try_const(e.comparators[0], default=NotImplemented) in keys:
+                            edges.append((t, 'true'))
+                node = cfg_node_for(cfg, c)
+                okk = bool(edges) and node is not None and node not in cfg.reachable(cfg.entry, avoid_edges=edges)
+            if not okk and (g.qname, norm(c)) in accepted:
+                report.suppress(rule, k_, accepted[(g.qname, norm(c))])
+                continue
+            report.check(okk, rule, k_, g.loc(c),
+                         '%s calls %s(%s) without restricting the value to the keys of its table (%s): another value raises KeyError out of the '
+                         'driver' % (g.qname, callee.name, norm(arg), ', '.join(sorted(map(str, keys)))[:80]))
+    return n
